@@ -77,6 +77,9 @@ func boolVal(s string) Val { return Val{T: types.Typ[types.Bool], S: []string{s}
 func (e *env) resolveType(x ast.Expr) types.Type {
 	switch t := x.(type) {
 	case *ast.Ident:
+		if t.Name == "memory" {
+			return memType
+		}
 		if o := types.Universe.Lookup(t.Name); o != nil {
 			if tn, ok := o.(*types.TypeName); ok {
 				return tn.Type()
@@ -185,6 +188,10 @@ func (e *env) ev(x ast.Expr, hint types.Type) Val {
 		}
 	case *ast.Ident:
 		switch n.Name {
+		case "mem":
+			if _, shadow := e.vars["mem"]; !shadow {
+				return Val{T: memType, S: []string{e.st.heap("M", "(_ BitVec 8)")}}
+			}
 		case "true", "false":
 			return boolVal(n.Name)
 		case "nil":
@@ -645,6 +652,22 @@ func (e *env) call(n *ast.CallExpr, hint types.Type) Val {
 		nb := map[string]int64{"mem8": 1, "mem16": 2, "mem32": 4, "mem64": 8}[name]
 		ts := map[string]types.Type{"mem8": types.Typ[types.Uint8], "mem16": types.Typ[types.Uint16], "mem32": types.Typ[types.Uint32], "mem64": types.Typ[types.Uint64]}[name]
 		return Val{T: ts, S: []string{e.st.rawLoadBits(a.S[0], nb)}}
+	case "memat8", "memat16", "memat32", "memat64":
+		mv := e.ev(n.Args[0], nil)
+		if mv.T != memType {
+			e.fail("%s(m memory, addr)", name)
+		}
+		a := u.mat(e.ev(n.Args[1], types.Typ[types.Uintptr]), types.Typ[types.Uintptr])
+		nb := map[string]int64{"memat8": 1, "memat16": 2, "memat32": 4, "memat64": 8}[name]
+		ts := map[string]types.Type{"memat8": types.Typ[types.Uint8], "memat16": types.Typ[types.Uint16], "memat32": types.Typ[types.Uint32], "memat64": types.Typ[types.Uint64]}[name]
+		var parts []string
+		for i := nb - 1; i >= 0; i-- {
+			parts = append(parts, fmt.Sprintf("(select %s %s)", mv.S[0], bvadd(a.S[0], u.m.offConst(i))))
+		}
+		if nb == 1 {
+			return Val{T: ts, S: parts}
+		}
+		return Val{T: ts, S: []string{"(concat " + strings.Join(parts, " ") + ")"}}
 	case "rawptr":
 		// rawptr(T, addr): *T at raw address
 		t := e.resolveType(n.Args[0])
